@@ -221,6 +221,9 @@ def run_strings(cases, stats):
                     expect[a] = s + s
                 elif p == 'cat3':
                     expect[a] = 'x' + s + 'y'
+                elif p == 'search' and s and not re.search(r'[?*~]', s):
+                    # a find text without wildcards is found where it was planted: behind the x of "x" + s + "y"
+                    expect[a] = 2
                 elif p == 'crit_lead2' and s and re.fullmatch(r'[^<>=?*~]+', s) and not _numlike(s):
                     # the criterion is the text itself (no operator, no wildcard): it selects the one cell that holds it
                     expect[a] = 1
